@@ -310,7 +310,26 @@ func (s *Sys) sendTx(src, dst *world.Chain, kind string, amount int64) (tx []byt
 	if base == "native" && fee > 0 {
 		value = new(big.Int).Add(value, big.NewInt(fee))
 	}
+	if call == "ctor" {
+		// the cross-chain call is made from the constructor of a contract being deployed (a transaction without a "to" address)
+		return src.EthTx(u1, nil, value, ctorForward(endpointcontract.EndpointContractAddress, data)), fee
+	}
 	return src.EthTx(u1, &endpointcontract.EndpointContractAddress, value, data), fee
+}
+
+// ctorForward is hand-assembled init code: copy the embedded call data to memory, CALL target with the deployment's
+// value, revert if the call failed, otherwise deploy an empty contract.
+func ctorForward(target common.Address, data []byte) []byte {
+	const L = 56 // length of the prologue = offset of the embedded call data
+	n := len(data)
+	code := []byte{0x61, byte(n >> 8), byte(n), 0x61, 0, L, 0x60, 0, 0x39} // PUSH2 len PUSH2 off PUSH1 0 CODECOPY
+	code = append(code, 0x60, 0, 0x60, 0, 0x61, byte(n>>8), byte(n), 0x60, 0, 0x34, 0x73) // retLen retOff argsLen argsOff CALLVALUE PUSH20
+	code = append(code, target.Bytes()...)
+	code = append(code, 0x5a, 0xf1, 0x60, 50, 0x57, 0x60, 0, 0x60, 0, 0xfd, 0x5b, 0x60, 0, 0x60, 0, 0xf3) // GAS CALL PUSH1 50 JUMPI revert | JUMPDEST return
+	if len(code) != L {
+		panic(fmt.Sprintf("ctorForward prologue is %d bytes", len(code)))
+	}
+	return append(code, data...)
 }
 
 // proofFor builds (proof, proofHeight) for key on chain `of` as seen by `on`'s client at height h (0 = client's latest).
